@@ -331,3 +331,39 @@ def helpers_step(chk, pid):
     return n
 
 
+
+
+def helpers_step_cpp(chk, pid):
+    """the C++ bridges of the published header as the examples use them (range-for over a CIterator, CPPIterator over a vector, callbacks made
+    from a vector pointer and from a lambda, slices from strings): bindgen/helpers.cpp against the processed plugin-api header, C++14"""
+    import emit_cpp
+    binary = tool()
+    m, em = emit_cpp.plugin_api_cpp()
+    w = os.path.join(WORK, pid.lower() + "hdr", chk.tier, "plugin-api-cpp")
+    r = run_tool_cpp(binary, w, em.text, config=None)
+    if r["rc"] != 0 or not r["text"]:
+        chk.incon("cglue-bindgen (C++) failed on plugin-api: %s" % r["err"][-300:])
+        return 0
+    src = os.path.join(VERIF, "bindgen", "helpers.cpp")
+    n = 0
+    for cc in (("g++", "clang++") if chk.tier != "quick" else ("g++",)):
+        exe = os.path.join(w, "helpers_" + cc.replace("+", "p"))
+        b = common.run([cc, "-std=c++14", "-w", "-g", "-O0", "-fsanitize=address,undefined", "-fno-sanitize-recover=undefined", "-I", w, "-o", exe, src], timeout=300)
+        if b["rc"] != 0:
+            chk.violation(pid + ":cpp-helpers-do-not-compile", "%s -std=c++14 rejects the documented uses of the header's C++ bridges: %s" % (cc, b["err"][:600]), dict(compiler=cc))
+            continue
+        x = common.run([exe], env=common.env_with({"ASAN_OPTIONS": "detect_leaks=0:halt_on_error=1:exitcode=77"}), timeout=120)
+        m_ = re.search(r"HELPERS cases=(\d+) violations=(\d+)", x["out"])
+        if not m_:
+            mm = re.search(r"ERROR: AddressSanitizer: ([^\n]*)|runtime error: ([^\n]*)", x["err"])
+            chk.violation(pid + ":cpp-helper-crash", "helpers driver (%s) did not finish: %s" % (cc, mm.group(0) if mm else x["err"][:300]), dict(compiler=cc))
+            continue
+        n += int(m_.group(1))
+        seen = set()
+        for h in re.finditer(r"^HELPER name=(\S+) ok=0 detail=(.*)$", x["out"], re.M):
+            if h.group(1) not in seen:
+                seen.add(h.group(1))
+                chk.violation(pid + ":cpp-helper:" + h.group(1), "%s (%s)" % (h.group(2), cc), dict(compiler=cc, helper=h.group(1)))
+    chk.part("published-header-helpers-cpp", helper_cases=n)
+    chk.floor("C++ header helper cases", n, 60)
+    return n
